@@ -281,6 +281,11 @@ pub fn lifecycle(c: &Ctx) -> Result<(), Violation> {
             if term(o.status) && o.end == TMAX && post.t != TMAX {
                 return Err(c.v("illegal-transition", of("end_time"), "set at termination".into(), "unset".into()));
             }
+            // (modify volumes are >= 1: a remaining volume of 0 can only come from executions, and an order whose whole
+            // volume executed is Filled - "cancelled" is for an unfilled remainder)
+            if o.status == CANCELLED && o.vol == 0 {
+                return Err(c.v("illegal-transition", of("status"), "Filled (the whole volume executed)".into(), "Cancelled with remaining volume 0".into()));
+            }
             if o.status == FILLED && o.vol != 0 {
                 return Err(c.v("illegal-transition", of("vol"), "0 when Filled".into(), o.vol.to_string()));
             }
